@@ -512,6 +512,27 @@ class Check(Property):
                     if got_d != want_d:
                         v.append(f"C10 file {c['file']} [{c['variant']}] derived dimension {d}: get_dimensionality gives {got_d} "
                                  f"but the definitions say {want_d}")
+                # compatible-unit listings do not depend on the loading path either (they come from a table that is filled
+                # when the registry's cache is built, or restored from the on-disk cache)
+                ref = pint.UnitRegistry(None, non_int_type=Fraction)
+                ref.load_definitions(c["text"].splitlines())
+                ref._build_cache()
+                for n in c["names"][:6]:
+                    try:
+                        got = sorted(str(x) for x in u.get_compatible_units(n))
+                        want = sorted(str(x) for x in ref.get_compatible_units(n))
+                    except Exception as exc:  # noqa: BLE001
+                        v.append(f"C10 file {c['file']} [{c['variant']}] compatible units of {n}: raised {type(exc).__name__}: {exc}")
+                        continue
+                    try:
+                        dn = proj.dimensionality({n: Fraction(1)})
+                        byreader = sorted(r_["name"] for r_ in proj.units if r_["name"] != n and proj.dimensionality({r_["name"]: Fraction(1)}) == dn) if dn else None
+                    except D.DefError:
+                        byreader = None
+                    if got != want:
+                        v.append(f"C10 file {c['file']} [{c['variant']}] compatible units of {n}: {got}, the same lines loaded as a list give {want}")
+                    elif byreader is not None and [x for x in want if x != n and not x.startswith("delta_")] != [x for x in byreader if not x.startswith("delta_")]:
+                        v.append(f"C10 file {c['file']} compatible units of {n}: {want}, the definitions give {byreader}")
                 if c.get("ctx"):
                     # the context of the file: its parameter default and the constant of its rule are read in the
                     # registry's numeric type, and the rule converts as written
